@@ -685,6 +685,56 @@ func TestPanicBehaviour(t *testing.T) {
 			w.n = 1
 		}, false, 1},
 	}
+	// every way of finishing x every way a Panic() event can come to nothing (or be written): it panics
+	type src struct {
+		name  string
+		ev    func() *zerolog.Event
+		write int
+	}
+	discardHook := zerolog.HookFunc(func(e *zerolog.Event, _ zerolog.Level, _ string) { e.Discard() })
+	srcs := []src{
+		{"enabled", func() *zerolog.Event { l := zerolog.New(w); return l.Panic() }, 1},
+		{"level-gated", func() *zerolog.Event { l := zerolog.New(w).Level(zerolog.Disabled); return l.Panic() }, 0},
+		{"Nop", func() *zerolog.Event { l := zerolog.Nop(); return l.Panic() }, 0},
+		{"sampled out", func() *zerolog.Event { l := zerolog.New(w).Sample(&zerolog.BasicSampler{N: 0}); return l.Panic() }, 0},
+		{"zero-value Logger", func() *zerolog.Event { var z zerolog.Logger; return z.Panic() }, 0},
+		{"Ctx fallback", func() *zerolog.Event { return zerolog.Ctx(context.Background()).Panic() }, 0},
+		// (Discard returns nil, so a chain continued from its result is a chain on no event at all: not a
+		// case; what counts is the event the program still holds)
+		{"discarded by the caller on a kept pointer", func() *zerolog.Event {
+			l := zerolog.New(w)
+			e := l.Panic().Str("k", "v")
+			e.Discard()
+			return e
+		}, 0},
+		{"discarded by the caller, fields added afterwards", func() *zerolog.Event {
+			l := zerolog.New(w)
+			e := l.Panic()
+			e.Discard()
+			return e.Str("k", "v").Int("n", 1)
+		}, 0},
+		{"discarded by a Func callback", func() *zerolog.Event {
+			l := zerolog.New(w)
+			return l.Panic().Func(func(e *zerolog.Event) { e.Discard() })
+		}, 0},
+		{"discarded by a hook", func() *zerolog.Event { l := zerolog.New(w).Hook(discardHook); return l.Panic() }, 0},
+	}
+	fins := []struct {
+		name string
+		f    func(*zerolog.Event)
+	}{
+		{"Msg", func(e *zerolog.Event) { e.Msg("boom") }},
+		{"Msg empty", func(e *zerolog.Event) { e.Msg("") }},
+		{"Msgf", func(e *zerolog.Event) { e.Msgf("boom %d", 1) }},
+		{"MsgFunc", func(e *zerolog.Event) { e.MsgFunc(func() string { return "boom" }) }},
+		{"Send", func(e *zerolog.Event) { e.Send() }},
+	}
+	for _, sc := range srcs {
+		for _, fn := range fins {
+			sc, fn := sc, fn
+			cases = append(cases, pc{"Panic() " + sc.name + ", finished with " + fn.name, func() { fn.f(sc.ev()) }, true, sc.write})
+		}
+	}
 	for _, c := range cases {
 		w.n = 0
 		var pan interface{}
